@@ -240,15 +240,7 @@ func ruleSubPaths(r *Run, p *Program, rule string) {
 					continue
 				}
 				n++
-				joined := false
-				for _, s := range sources(a) {
-					if cc, ok := s.(*ssa.Call); ok && cc.Call.StaticCallee() != nil {
-						switch cc.Call.StaticCallee().String() {
-						case "path/filepath.Join", "path/filepath.Clean":
-							joined = true
-						}
-					}
-				}
+				joined := normalisedPath(a, 0)
 				r.check(joined, rule, funcKey(f)+"->FileSystem."+c.Call.Method.Name()+":path", p.Pos(c.Pos()),
 					"paths handed to the wrapped file system come from filepath.Join (normalised)",
 					"the directory wrapper hands a path to the wrapped file system that is not the result of filepath.Join/Clean: the in-memory file system keys files by the verbatim string, so another spelling of the same directory opens an empty database there while the OS file systems resolve both spellings to the same files")
@@ -503,4 +495,43 @@ func ruleWorkerTickers(r *Run, p *Program, rule string) {
 		})
 	}
 	r.universe(rule, n, 1)
+}
+
+// normalisedPath: every origin of the string is a result of filepath.Join / filepath.Clean, directly or through a
+// module helper whose every return is one.
+func normalisedPath(v ssa.Value, depth int) bool {
+	if depth > 3 {
+		return false
+	}
+	srcs := sources(v)
+	if len(srcs) == 0 {
+		return false
+	}
+	for _, s := range srcs {
+		cc, ok := s.(*ssa.Call)
+		if !ok || cc.Call.StaticCallee() == nil {
+			return false
+		}
+		g := cc.Call.StaticCallee()
+		switch g.String() {
+		case "path/filepath.Join", "path/filepath.Clean":
+			continue
+		}
+		if !inModule(g) || g.Blocks == nil || g.Signature.Results().Len() != 1 {
+			return false
+		}
+		rets := 0
+		for _, b := range g.Blocks {
+			if rt, ok := b.Instrs[len(b.Instrs)-1].(*ssa.Return); ok {
+				rets++
+				if !normalisedPath(rt.Results[0], depth+1) {
+					return false
+				}
+			}
+		}
+		if rets == 0 {
+			return false
+		}
+	}
+	return true
 }
